@@ -223,7 +223,8 @@ def init (c2s : List (String × Stype)) (target : Option String) (stats : List (
 def stypeOf (cv : Conv F) (col : String) : Stype := (dictGet cv.colToStype col).getD .numerical
 
 def cfg (cv : Conv F) (col : String) : ColCfg F :=
-  { cats := ((dictGet cv.stats col).getD {}).cats, embed := cv.embedders col }
+  { cats := ((dictGet cv.stats col).getD {}).cats, embed := cv.embedders col
+    embDim := ((dictGet cv.stats col).getD {}).embDim.toNat }
 
 /-- `self._get_mapper(col).forward(df[col])`; `none` = KeyError (`df` lacks the column) -/
 def mapCol (cv : Conv F) (df : DF L F) (col : String) : Option (ColOut F) :=
